@@ -91,6 +91,13 @@ const NAMES: [&str; 6] = ["a", "b", "c", "d", "x", "y"];
 const INTERNAL_NAMES: [&str; 15] =
     ["iterator", "default", "func", "mapper", "res", "con", "value", "array", "i", "len", "iter", "acc", "curr", "function", "val"];
 
+/// identifiers that merely begin with a word of the language (a type name or a keyword)
+pub const KEYWORD_PREFIXED_NAMES: [&str; 40] = [
+    "integer", "int_v", "floaty", "string_of", "boolean", "anything", "any_", "mutable", "structure", "iffy", "elsewhere", "matches", "returned",
+    "looped", "fore", "breaker", "importer", "modulo", "truely", "falsey", "in_", "whiles", "continued", "format", "international", "return_",
+    "break1", "loop_", "mut_", "forx", "while0", "continue_x", "true_", "false1", "mod_", "struct_", "bool_", "float1", "string2", "int0",
+];
+
 fn scalar_types() -> [Ty; 4] {
     [Ty::Int, Ty::Bool, Ty::Str, Ty::Float]
 }
@@ -171,6 +178,9 @@ impl<'a> Gen<'a> {
         } else if self.tape.chance(1, 6) {
             self.label("variable named like an internal helper name");
             self.tape.pick(&INTERNAL_NAMES).to_string()
+        } else if self.tape.chance(1, 8) {
+            self.label("variable whose name begins with a word of the language");
+            self.tape.pick(&KEYWORD_PREFIXED_NAMES).to_string()
         } else {
             self.fresh += 1;
             format!("v{}", self.fresh)
@@ -1508,6 +1518,9 @@ impl<'a> Gen<'a> {
                     // a parameter (a run-time value, never folded away) spelled like a helper name
                     self.label("parameter named like an internal helper name");
                     self.tape.pick(&INTERNAL_NAMES).to_string()
+                } else if self.tape.chance(1, 8) {
+                    self.label("parameter whose name begins with a word of the language");
+                    self.tape.pick(&KEYWORD_PREFIXED_NAMES).to_string()
                 } else {
                     format!("q{i}")
                 };
